@@ -87,7 +87,7 @@ inline M3 fromQuat(LD w, LD x, LD y, LD z) {
     m.a[2][0] = 2 * (x * z - w * y);     m.a[2][1] = 2 * (y * z + w * x);     m.a[2][2] = 1 - 2 * (x * x + y * y);
     return m;
 }
-template <class M> inline M3 toM3(const M& m) { M3 r; for (int i = 0; i < 3; ++i) for (int j = 0; j < 3; ++j) r.a[i][j] = (LD)m(i, j); return r; }
+template <class M> inline M3 toM3(const M& m) { M3 r; for (int i = 0; i < 3; ++i) for (int j = 0; j < 3; ++j) r.a[i][j] = (LD)m[i][j]; return r; }
 template <class V> inline V3 toV3(const V& v) { return vec((LD)v[0], (LD)v[1], (LD)v[2]); }
 
 inline std::string str(const M3& m) {
